@@ -55,6 +55,7 @@ def make_plan(seed: int, tier: str, opts: dict) -> dict:
     plan["hot_rate"] = r.choice([0.0, 0.15, 0.4]) if tier == "thorough" else r.choice([0.0, 0.0, 0.15, 0.4])
     if race:
         plan["hot_rate"], plan["line_rate"] = 0.4, 0.0
+    plan["spin_guard"] = True  # line tracing always on: a task that spins without reaching a synchronisation point is a (deterministic) livelock verdict
     return plan
 
 
